@@ -104,7 +104,7 @@ def _reference_days(s, present, step, tz):
     for d, e in zip(days[:-1], days[1:]):
         a, b = s.index.searchsorted(d), s.index.searchsorted(e)
         p = present[a:b]
-        rows.append((d, float(vals[a:b][p].sum()), p.sum() * step, e - d, max(d, s.index[0])))
+        rows.append((d, float(vals[a:b][p].sum()), p.sum() * step, e - d, int((~p).sum())))
     return rows
 
 
@@ -148,7 +148,7 @@ def subdaily_case(case):
     out = out.astype(float)
     bad, known = [], []
     ref = _reference_days(s, present, step, tz)
-    for j, (d, tot, pdur, ddur, _) in enumerate(ref):
+    for j, (d, tot, pdur, ddur, n_gap) in enumerate(ref):
         if d not in out.index:
             bad.append(f"day {d.date()} absent from the result")
             continue
@@ -165,7 +165,8 @@ def subdaily_case(case):
             continue
         # known finding C08-subdaily-gap-not-scaled: through the data classes a day with a gap carries exactly what the constant-rate
         # spreading of the readings PRESENT puts into it (the gap was dropped, coverage counted as 1)
-        if via != "function" and cov < 1 and np.isfinite(got) and abs(got - _spread_present(s, present, d, d + ddur)) <= 1e-9 * max(1.0, abs(got)):
+        # (only a day that HAS a gap inside the series qualifies: a leading partial day has no dropped reading)
+        if via != "function" and n_gap > 0 and cov < 1 and np.isfinite(got) and abs(got - _spread_present(s, present, d, d + ddur)) <= 1e-9 * max(1.0, abs(got)):
             known.append(msg)
         else:
             bad.append(msg)
@@ -246,6 +247,14 @@ def cases(tier, seed):
                 "seed": 3, "start_hour": 12})   # the first day is covered for exactly one half
     out.append({"kind": "subdaily", "tz": "America/Chicago", "start": "2023-06-05", "n_days": 6, "minutes": 30, "via": "frame", "gap_kind": "nan", "gaps": [],
                 "seed": 3, "start_hour": 11})   # ... for more than half
+    # a series whose first reading is not at local midnight: the first day is covered for a quarter / three quarters (the function itself, and the classes)
+    for hour, minutes, via in ((18, 30, "function"), (6, 60, "function"), (6, 15, "from_series"), (18, 60, "frame")):
+        out.append({"kind": "subdaily", "tz": "Europe/Berlin", "start": "2023-06-05", "n_days": 5, "minutes": minutes, "via": via, "gap_kind": "nan", "gaps": [],
+                    "seed": 6, "start_hour": hour})
+    # read calendars that mix monthly and bi-monthly periods: the cadence is the median spacing of the BILLS (the open-ended closing period does not vote)
+    for ls, cyc in (([30, 30, 31, 30, 61, 61, 61, 61], "monthly"), ([30, 31, 30, 61, 61, 61, 30], "bimonthly")):
+        out.append({"kind": "billing", "tz": "America/Chicago", "start": "2021-01-05", "lengths": ls, "values": [200.0 + 11 * k for k in range(len(ls))], "cycle": cyc, "entry": "frame"})
+        out.append({"kind": "billing", "tz": "America/Chicago", "start": "2021-01-05", "lengths": ls, "values": [200.0 + 11 * k for k in range(len(ls))], "cycle": cyc, "entry": "series"})
     for tz in ("America/Chicago", "UTC", "Australia/Sydney"):
         out.append({"kind": "daily", "tz": tz, "start": "2023-01-01", "n_days": 365, "seed": 4, "missing": [5, 6, 100]})
         out.append({"kind": "daily", "tz": tz, "start": "2023-03-01", "n_days": 40, "seed": 5, "reporting": True})
